@@ -41,8 +41,16 @@ PARTIAL = [
     "C14_all_continue and C14_returns_ok_on_directives are restricted to CIFs without packet-less loops (entering such a "
     "loop ends the walk with CIF_EMPTY_LOOP: C14_empty_loop, C14_returns_ok_or_empty_loop); every other theorem holds for "
     "every CIF",
-    "'handles passed to callbacks are valid for queries' is not a theorem: it is observed by the correspondence run only "
-    "(every handle is queried inside every callback under ASan)",
+    "'handles passed to callbacks are valid for queries' is not a theorem: it is observed by the correspondence run, under "
+    "ASan, and judged by the oracle and the model alike: inside every block / frame start and end callback the container "
+    "handle is asked cif_container_assert_block (CIF_OK for a data block, CIF_ARGUMENT_ERROR for a save frame — the model "
+    "knows the kind of every handle), cif_container_get_code, the numbers of frames and loops it lists "
+    "(cif_container_get_all_frames / _loops), cif_container_get_frame of its first listed frame through the handle (the "
+    "look-up uses the handle's own id; the code of the returned handle is compared) and cif_container_get_item_loop of the "
+    "first name of its first listed loop (category of the returned loop); loop handles: category and names; packet handles: "
+    "names and values; items: name and value.  The answers are part of the observation (`q:` token) and are checked against "
+    "the CIF that was built.  Not queried: packet iteration through a loop handle inside loop callbacks (would interfere "
+    "with the walker's own iterator); there is no API to ask a loop handle for its container",
 ]
 LEVEL_TEXT = ("Proof about the executable model Walk.walk, for all CIFs (any shape/order) and all handler programs "
               "(arbitrary functions of invocation index and event): refinement of a declarative pruning semantics over the "
